@@ -214,7 +214,7 @@ func init() { vxRegister("VX_C17_PushRedial", VX_C17_PushRedial) }
 // args: kind(0 push, 1 call), nBody
 func VX_C17_PushRedial(args []int) {
 	kind, nBody := args[0], args[1]
-	cli := erpc.NewPeer(erpc.PeerConfig{DefaultBodyCodec: "protobuf", RedialTimes: 1}, NewPlugin(10001, vxKeyA))
+	cli := erpc.NewPeer(erpc.PeerConfig{DefaultBodyCodec: "protobuf", RedialTimes: 1, RedialInterval: vxRedialEvery}, NewPlugin(10001, vxKeyA))
 	srv := erpc.NewPeer(erpc.PeerConfig{DefaultBodyCodec: "protobuf"}, NewPlugin(10002, vxKeyA))
 	arg := vxBytes("arg", nBody)
 	argCopy := append([]byte{}, arg...)
